@@ -20,6 +20,7 @@ from concurrent.futures import ProcessPoolExecutor, wait, FIRST_COMPLETED
 from concurrent.futures.process import BrokenProcessPool
 import multiprocessing
 
+from . import core
 from .core import (Env, Violation, HarnessError, StepCap, run_seed)
 
 VERIF = os.path.dirname(os.path.dirname(os.path.abspath(__file__)))
@@ -317,6 +318,7 @@ def write_replay(prop, found, minimised, base_seed, tree):
         "digest": out.env.digest(),
         "tree": tree,
         "original_ops": len(found["trace"].get("ops", ())),
+        "generator_depth": core.DEPTH,
         "trace": minimised,
         "event_log_tail": [list(map(_js, e)) for e in out.env.events[-40:]],
     }
@@ -603,6 +605,7 @@ def write_evidence(prop, tier, base_seed, agg, violations, wall, extra):
         "faults_fired": dict(agg["fired"]),
         "callback_sites_hit": dict(agg["sites"]),
         "probes": dict(agg["probes"]),
+        "generator_depth": core.DEPTH,
         "state_coverage": prop.coverage_report(agg["cells"]) if hasattr(prop, "coverage_report") else {"cells": len(agg["cells"])},
         "components": getattr(prop, "COMPONENTS", {
             "real": ["traits (Python modules and ctraits built from the working tree)",
@@ -639,6 +642,10 @@ def cmd_check(args):
     assert_scratch_build()
     prop = load_prop(args.prop)
     tier = args.tier
+    if tier == "thorough":
+        # deeper generators (core.DEPTH); inherited by the forked workers and handed
+        # to the fresh interpreters of the cross-check through the environment
+        core.set_depth(1)
     base_seed = args.seed
     budget = args.budget if args.budget else TIER_BUDGET[tier] * getattr(prop, "BUDGET_SCALE", 1.0)
     workers = args.workers
